@@ -23,6 +23,10 @@ func histString(s bfs.System, h []int) []string {
 
 // exploreBFS runs a BFS system and folds the result into r.
 func exploreBFS(r *evid.Run, name string, o bfs.Options) *bfs.Result {
+	return exploreBFSOpts(r, name, o)
+}
+
+func exploreBFSOpts(r *evid.Run, name string, o bfs.Options) *bfs.Result {
 	mk, ok := Systems[name]
 	if !ok {
 		panic("unknown system " + name)
